@@ -169,6 +169,24 @@ CHECKS = {
         'independent decoder here: for it only the container structure and block counts are checked in the writing direction',
    technique='Coq proof (induction over blocks; C02 specification relation for the header) + independent reader/writer differential check',
    design='DESIGN.md 6/C04'),
+ 'C05': dict(
+   text='PARTIAL by proof: the theorems carry what is logic - the datum decoder model (the one C01/C02/C06 tie to decode.rs) is a '
+        'total function that never takes a panic branch for ANY schema, name table, limit and byte string (C05_decode_never_panics, '
+        'induction on fuel through arrays, maps, unions, records, references); every declared byte length is compared with the '
+        'allocation limit before the payload is taken and every declared block count, and the running total times the in-memory '
+        'item size, before the first item is decoded (C05_declared_length_bounded, C05_declared_count_bounded); decompression output '
+        'is capped (C15_output_bounded). What no model here can exhibit - allocator aborts, stack exhaustion on deeply nested data, '
+        'wall-clock time, the behaviour of the schema-aware deserializer and of the codec libraries - is checked on the implementation: '
+        'every reading entry point (datum reader + deserializer, container reader incl. header and embedded schema, single-object '
+        'reader, block decompression) on exhaustive short strings, truncations and byte alterations of valid data, hostile counts / '
+        'sizes / schemas and random bytes, under limits of 4 KiB, 64 KiB and 1 MiB, with a counting allocator in the harness '
+        '(largest single request <= limit + 96 KiB of incidental allocations + codec working memory; peak growth) and per-case time limits.',
+   note='four defects repaired earlier (F12 empty compression level, F13 fixed size vs limit, F14 deserializer count bound, F1 EOF); '
+        'one open finding F53 (hash table capacity rounding: up to ~2.3x the limit for a declared map block). Working memory of '
+        'the bzip2 (block state <= 3.6 MB) and zstd (128 KiB input buffer) decoders is not counted as memory for a declared length; '
+        'liblzma and zstd allocate through malloc, which the counting allocator does not see.',
+   technique='Coq proof (panic-freedom and allocation guards of the decoder model) + counting-allocator and time-limit sweep of all entry points',
+   design='DESIGN.md 6/C05'),
  'C07': dict(
    text='Theorems (Coq): a value validation rejects is written by none of the validating paths - datum writer '
         'errs before encoding, single-object writer emits nothing and keeps its buffer, container writer state '
